@@ -83,4 +83,17 @@ META = {
                 "non-terminal state; 56274c9 echoed deliveries retained in the session map).",
         "technique": "Coq proof (invariants over the disposition loop) + extracted-model-vs-implementation correspondence",
     },
+    "C11": {
+        "text": "Theorems (Coq, closed): transfer-ids on the wire are consecutive and a frame carries a delivery-id exactly when it carries "
+                "a tag (its own transfer-id), while the link-level split puts the tag on the first frame only - so deliveries get "
+                "strictly increasing ids and all frames of a delivery carry the same id or none; after any history no two live links "
+                "share a handle and no name is attached twice; a new handle/channel is unused and either brand new or released; "
+                "channels never exceed the agreed channel-max; an incoming frame is routed to the link/session the peer's "
+                "handle/channel was bound to and binding one handle leaves the others unchanged. The models are run against the real "
+                "Session and Connection through the facade on random histories every run.",
+        "design_ref": "DESIGN.md section 4, C11",
+        "note": "Trusted: Coq kernel, extraction, facade, the slab model. Fixed defect: a delivery split at link level into exactly two "
+                "frames got two delivery-ids (9ae4fe4).",
+        "technique": "Coq proof (invariants of slab + maps over operation lists) + extracted-model-vs-implementation correspondence",
+    },
 }
